@@ -552,8 +552,18 @@ func runScript() {
 		}
 		var outs []map[string]string
 		for i := 0; i < c.Repeat; i++ {
-			r := vrun.RunString(c.Src, "c09script.php")
-			outs = append(outs, map[string]string{"out": r.Out, "outcome": r.Outcome, "detail": r.Detail})
+			// watchdog: every script of the check terminates by construction; a run that does not come back (spawned
+			// coroutines never started / all parked) is reported as outcome "hang" and the process is given up
+			done := make(chan vrun.Result, 1)
+			go func() { done <- vrun.RunString(c.Src, "c09script.php") }()
+			select {
+			case r := <-done:
+				outs = append(outs, map[string]string{"out": r.Out, "outcome": r.Outcome, "detail": r.Detail})
+			case <-time.After(8 * time.Second):
+				outs = append(outs, map[string]string{"out": "", "outcome": "hang", "detail": fmt.Sprintf("run %d of %d did not finish within 8 s; GOMAXPROCS=%d; goroutines=%d", i+1, c.Repeat, runtime.GOMAXPROCS(0), runtime.NumGoroutine())})
+				out.Encode(map[string]any{"runs": outs})
+				os.Exit(3)
+			}
 		}
 		out.Encode(map[string]any{"runs": outs})
 	})
